@@ -44,7 +44,7 @@ def gen(ch, tier):
                 pri_crc=ch.choice('pc', (0, 0, 2, 1)), blk_crc=ch.choice('bc', (0, 0, 1, 2)), window=ch.pick('window', 1 << 16),
                 wsize=24 if tier == 'quick' else 96, accept=ch.coin('accept', 2, 3), dst_key=ch.choice('dstkey', ('right', 'right', 'right', 'wrong', 'missing')),
                 falg=ch.choice('falg', (1, 3)), scope=ch.choice('scope', ([[0, 1], [-1, 1]], [[0, 1], [-1, 1], [-2, 1]], [[-1, 1]])),
-                tgt_ext=(kind != 'foreign' and ch.coin('tgtext', 1, 3)), split_assoc=ch.coin('split', 1, 2), typed_ext=ch.coin('typed', 1, 2), fixup=True)
+                tgt_ext=(kind != 'foreign' and ch.coin('tgtext', 1, 3)), split_assoc=ch.coin('split', 1, 2), typed_ext=ch.coin('typed', 1, 2), svc_source=ch.coin('svcsrc', 1, 3), fixup=True)
 
 
 def _kid(plan):
@@ -98,7 +98,7 @@ def make_copy(plan, har, index):
         # a second target of the same confidentiality block (block number 2, after the payload in target order)
         ext.insert(0, dict(type=192, flags=0, crc_type=plan['blk_crc'], btsd=b'\x4cSECOND-TARGET'))
     if plan['kind'] != 'foreign':
-        return sc.source_bundle(har, seqno, plain, ext, pri_crc=plan['pri_crc'], pay_crc=plan['blk_crc'])
+        return sc.source_bundle(har, seqno, plain, ext, pri_crc=plan['pri_crc'], pay_crc=plan['blk_crc'], source='dtn://s/svc7' if plan.get('svc_source') else None)
     pri = dict(flags=0, crc_type=plan['pri_crc'], destination='dtn://d/app', source='dtn://s/', report_to='dtn:none',
                create_time=820000000000, seqno=seqno, lifetime=3600000)
     blocks = [dict(type=blk['type'], num=3 + ix, flags=blk['flags'], crc_type=blk['crc_type'], btsd=blk['btsd']) for (ix, blk) in enumerate(ext)]
@@ -357,7 +357,7 @@ def _drive(run, plan, har):
     if plan['kind'].startswith('report-'):
         return _drive_report(run, plan, har)
     stats = run.stats
-    cfg = bc.digest({key: plan[key] for key in ('kind', 'plen', 'others', 'pri_crc', 'blk_crc', 'dst_key', 'accept', 'falg', 'scope', 'tgt_ext', 'split_assoc')})
+    cfg = bc.digest({key: plan[key] for key in ('kind', 'plen', 'others', 'pri_crc', 'blk_crc', 'dst_key', 'accept', 'falg', 'scope', 'tgt_ext', 'split_assoc', 'typed_ext', 'svc_source') if key in plan})
     stats['kind.' + ('foreign' if plan['kind'] == 'foreign' else 'enc0')] = 1
     stats['accept.' + ('on' if plan['accept'] else 'off')] = 1
     if plan.get('tgt_ext'):
@@ -381,6 +381,11 @@ def _drive(run, plan, har):
     if not bcbs:
         run.viols.append(('wire', 'no-bcb', 'the transmitted bundle carries no confidentiality block although policy demands one'))
         return
+    if plan['kind'] != 'foreign':
+        diff = sc.policy_targets_covered(orig0, rfc9171.TYPE_BCB, [1, 10 if plan.get('typed_ext') else 192] if plan.get('tgt_ext') else [1])
+        if diff:
+            run.viols.append(('wire', 'policy-targets-not-covered', 'confidentiality: ' + diff))
+            return
     # wire checks
     wire_tgt = rfc9171.payload(orig0)
     if len(plain) and wire_tgt == plain:
